@@ -2712,7 +2712,7 @@ func (p *Parser) evaluateSubscript(ctx context) (Expression, error) {
 	}
 	nextToken = p.peek()
 	endToken := nextToken
-	endIndex := startIndex
+	var endIndex Expression // A single index has no end-index (it is the start-index, evaluated once).
 
 	if nextToken.Type() == lexer.CLOSING_SQUARE_BRACKET {
 		// If range but no end-index is provided, create one by using Len-expression.
@@ -2743,10 +2743,12 @@ func (p *Parser) evaluateSubscript(ctx context) (Expression, error) {
 			right:    IntegerLiteral{1},
 		}
 	}
-	endIndexValueType := endIndex.ValueType()
+	if endIndex != nil {
+		endIndexValueType := endIndex.ValueType()
 
-	if !endIndexValueType.IsInt() {
-		return nil, p.expectedError(fmt.Sprintf("%s as stop-index but got %s", DATA_TYPE_INTEGER, endIndexValueType.String()), endToken)
+		if !endIndexValueType.IsInt() {
+			return nil, p.expectedError(fmt.Sprintf("%s as stop-index but got %s", DATA_TYPE_INTEGER, endIndexValueType.String()), endToken)
+		}
 	}
 
 	if !isSlice {
